@@ -16,12 +16,21 @@ try:
 except Exception as _ex:
     SITES_STATUS = "unparsed generator-failed: %s" % str(_ex)[:200]
 
+# round 4: the serde tables (visitor methods, human-readable entry points, visit_str parsers, infinity texts, zero-significand
+# exponent table) and the exponent step of Repr::try_normalize -> coq/gen/SerdeSites.v
+try:
+    import translate_c16_r4
+    SERDE_STATUS = translate_c16_r4.generate(core.REPO, os.path.join(core.COQ, "gen"))
+except Exception as _ex:
+    SERDE_STATUS = "unparsed generator-failed: %s" % str(_ex)[:200]
+
 if os.path.realpath(core.REPO) != os.path.realpath("/repo") and os.path.realpath(core.COQ) == os.path.realpath(os.path.join(core.ROOT, "coq")):
     import atexit
 
     def _restore_sites():
         try:
             translate_c16_r3.generate("/repo", os.path.join(core.COQ, "gen"))
+            translate_c16_r4.generate("/repo", os.path.join(core.COQ, "gen"))
         except Exception:
             pass
 
@@ -30,14 +39,19 @@ if os.path.realpath(core.REPO) != os.path.realpath("/repo") and os.path.realpath
 
 def extra_phase(tier, seed, exes, oracle):
     word = SITES_STATUS.split(" ", 1)[0]
+    word4 = SERDE_STATUS.split(" ", 1)[0]
     return {
         "evaluations": 0,
-        "hist": {"translator_c16_r3:ParseSites:" + word: 1},
+        "hist": {"translator_c16_r3:ParseSites:" + word: 1, "translator_c16_r4:SerdeSites:" + word4: 1},
         "nontrivial": [],
         "samples": [{"fragment": "coq/gen/ParseSites.v (tools/translate_c16_r3.py from float/src/parse.rs, rational/src/parse.rs, "
                                  "integer/src/parse/mod.rs, float/src/log.rs)", "status": SITES_STATUS,
                      "tied_by": ("C16_scale_markers_ascii, C16_scale_markers_are_grammar, C16_slice_sites_modelled, C16_iacoth_arguments"
-                                 if word == "ok" else "correspondence run only (source not parsed; committed copy marked STALE)")}],
+                                 if word == "ok" else "correspondence run only (source not parsed; committed copy marked STALE)")},
+                    {"fragment": "coq/gen/SerdeSites.v (tools/translate_c16_r4.py from integer|float|rational/src/third_party/serde.rs, "
+                                 "float/src/repr.rs)", "status": SERDE_STATUS,
+                     "tied_by": ("C16_serde_sites_modelled, C16_serde_human_route_is_str; the model Cross/SerdeText.v runs the generated tables"
+                                 if word4 == "ok" else "correspondence run only (source not parsed; committed copy marked STALE)")}],
         "failures": [],
     }
 
@@ -906,6 +920,208 @@ JSON_PIECES = ['"', "0", "1", "-1", "1.5", "1e5", "[", "]", "{", "}", ",", ":", 
                '"é"', " ", '"0b101"', "[0,[]]", "[false,[1,2,3]]", "[1,[0]]"]
 
 
+# ------------------------------------------------------------------------------------------------
+# round 4: Repr::new at the end of the exponent range, the struct form and the JSON route of the deserialisers, timing
+# ------------------------------------------------------------------------------------------------
+DE_ALL = ["ubig", "ibig", "fbig", "dbig", "tbig", "hbig", "repr", "rbig", "relaxed"]
+DE_FLOAT_BASE = {"fbig": 2, "dbig": 10, "tbig": 3, "hbig": 16, "repr": 10}
+
+
+def bx(b):
+    return "s" + bytes(b).hex()
+
+
+JSON_TEXTS = ['"12"', ' "12" ', '\t"12"\n', '"12" x', '"12"1', '"12""', "12", "-1", "1.5", "null", "true", "[1,2]", '["12"]', '{"a":"1"}',
+              '{"significand":"1","exponent":0}', '{"numerator":"1","denominator":"2"}', "", " ", '"', '"12', '"\\u0031\\u0032"', '"\\u00312"',
+              '"\\u003"', '"\\u003g"', '"\\uD83D\\uDE00"', '"\\ud83d"', '"\\ud83dx"', '"\\ud83d\\u0031"', '"\\ud83d\\n"', '"\\ude00"', '"\\n1"', '"1\n"',
+              '"1\x1f"', '"\\x31"', '"\\"', '"\\\\"', '"1\\/2"', '"1/2"', '"-1/-2"', '"4/6"', '"1/0"', '"0/0"', '"0/5"', '"0x10"', '"0b101/0b11"',
+              '"0x10/3"', '"inf"', '"-inf"', '"+inf"', '"Inf"', '"infinity"', '"inf "', '"1.5e3"', '"1.5"', '"-0.5"', '"0x1.8p3"', '"1e9223372036854775807"',
+              '"10e9223372036854775807"', '"1e-9223372036854775808"', '"\u00e9"', '"1\u00e9"', '"\\u00e9"', '"1_000"', '"_"', '""', '"\\b"', '"1\\t"',
+              '"\U0001f600"', '"7"\r', '"7"\x0c']
+JSON_RAW = [b'"1\xff"', b'"\xc3"', b'"1\xc3\xa9"', b'\xff', b'"1\xed\xa0\x80"', b'"\x00"', b'"1\x7f"', b'"12"\x00']
+
+
+def json_sweep(rng):
+    """every deserialisable type x a fixed list of JSON texts (strings with every escape form, paired / lone surrogates, control
+    characters, raw non-UTF-8 bytes, trailing characters, every non-string JSON value): always part of a run"""
+    out = []
+    for ty in DE_ALL:
+        for t in JSON_TEXTS:
+            out.append("d.%s.json %s" % (ty, sx(t)))
+        for b in JSON_RAW:
+            out.append("d.%s.json %s" % (ty, bx(b)))
+    return out
+
+
+def end_of_range(rng, base):
+    """(significand, exponent): a significand with k trailing zero digits at the exponent isize::MAX - k + delta"""
+    k = rng.choice([0, 1, 1, 2, 3, 5, 17, 40])
+    m = rng.choice([1, 1, base - 1, base + 1, rng.bits(20) * base + 1, rng.bits(70) * base + 1])
+    if m % base == 0:
+        m += 1
+    s = m * base ** k
+    if rng.chance(1, 2):
+        s = -s
+    e = I64MAX - k + rng.choice([-1, 0, 0, 1, 1, 2, k]) if rng.chance(3, 4) else rng.choice([0, 1, -1, -I64MAX, -I64MAX + k, I64MAX, I64MAX - 1, 1 << 62])
+    return s, max(-I64MAX, min(I64MAX, e))
+
+
+def repr_new_sweep(rng):
+    out = []
+    for bt in ("2", "3", "a", "10"):
+        base = BASES[bt]
+        for k in (0, 1, 2, 7):
+            for d in (-1, 0, 1):
+                m = rng.choice([1, base + 1, rng.bits(66) * base + 1])
+                s = m * base ** k * rng.choice([1, -1])
+                for op in ("repr_new", "from_parts"):
+                    out.append("f.%s %s %s 0 %s %s" % (op, bt, rng.choice(MODES), hx(s), hx(min(I64MAX, I64MAX - k + d))))
+        out.append("f.repr_new %s Zero 0 0 %s" % (bt, hx(I64MAX)))
+        out.append("f.repr_new %s Zero 0 %s %s" % (bt, hx(base ** 9), hx(-I64MAX)))
+    return out
+
+
+def gen_repr_new(rng, out):
+    bt = rng.choice(["2", "3", "a", "10"])
+    s, e = end_of_range(rng, BASES[bt])
+    out.append("f.%s %s %s 0 %s %s" % (rng.choice(["repr_new", "repr_new", "from_parts"]), bt, rng.choice(MODES), hx(s), hx(e)))
+
+
+def struct_case(rng, ty, edge):
+    if ty in ("rbig", "relaxed"):
+        n = rng.choice([0, 0, 1, -1, 4, -6, 1 << 64, rng.bits(70), -rng.bits(130)])
+        d = rng.choice([0, 0, 1, 2, 6, 1 << 64, rng.bits(70), abs(n)])
+        return "d.%s.struct %s %s" % (ty, hx(n), hx(d))
+    base = DE_FLOAT_BASE[ty]
+    if edge == 0:
+        s, e = 0, rng.choice([0, 1, -1, 2, -2, I64MAX, -I64MAX])
+    elif edge == 1:
+        s, e = end_of_range(rng, base)
+    else:
+        s, e = fsig(rng, base, 0, False), fexp(rng, False)
+    nd = 0
+    t = abs(s)
+    while t and t % base == 0:
+        t //= base
+    while t:
+        t //= base
+        nd += 1
+    p = rng.choice([0, 0, nd, nd, nd + 1, max(nd - 1, 0), max(nd - 1, 0), 1, 100])
+    if ty == "repr":
+        return "d.repr.struct %s %s" % (hx(s), hx(e))
+    return "d.%s.struct %s %s %x" % (ty, hx(s), hx(e), p)
+
+
+def struct_sweep(rng):
+    out = []
+    for ty in ("fbig", "dbig", "tbig", "hbig", "repr", "rbig", "relaxed"):
+        for edge in (0, 0, 0, 1, 1, 1, 1, 1, 1, 2, 2, 2):
+            out.append(struct_case(rng, ty, edge))
+    out += ["d.dbig.struct a 7fffffffffffffff 0", "d.repr.struct 64 7ffffffffffffffe", "d.fbig.struct 2 7fffffffffffffff 1", "d.relaxed.struct 1 0",
+            "d.rbig.struct 0 0", "d.relaxed.struct 0 0", "d.rbig.struct 1 0", "d.hbig.struct -1000 7ffffffffffffffe 0", "d.tbig.struct 9 7ffffffffffffffe 0"]
+    return out
+
+
+JSON_ATOMS = ["1", "12", "-7", "0", "0x1f", "0b101", "1/2", "-4/6", "1/0", "1.5", "1e5", "inf", "-inf", "_", "", " ", "1_0", "0x1.8p3", "é", "/", "+", "z"]
+JSON_ESC = ["\\u0031", "\\u002f", "\\u002F", "\\/", "\\n", "\\\\", '\\"', "\\ud83d\\ude00", "\\ud83d", "\\udc00", "\\u12", "\\q", "\\u00e9", "\\b", "\\u0000"]
+
+
+def gen_json(rng, out):
+    body = "".join(rng.choice(JSON_ATOMS) if rng.chance(2, 3) else rng.choice(JSON_ESC) for _ in range(rng.choice([1, 1, 2, 3])))
+    if rng.chance(1, 2):
+        body = rng.choice(TEMPLATES) if rng.chance(1, 2) else body
+    pre = rng.choice(["", "", " ", "\n\t "])
+    post = rng.choice(["", "", " ", "\n", " x", ",", '"'])
+    text = pre + '"' + body + '"' + post
+    if rng.chance(1, 10):
+        text = rng.choice(["", body, "[" + text + "]", '{"a":' + text + "}", text[:-1] if post == "" else text])
+    out.append("d.%s.json %s" % (rng.choice(DE_ALL), sx(text)))
+
+
+def gen_deser(rng, out):
+    k = rng.below(10)
+    if k < 4:
+        gen_json(rng, out)
+    elif k < 8:
+        out.append(struct_case(rng, rng.choice(["fbig", "dbig", "tbig", "hbig", "repr", "rbig", "relaxed"]), rng.choice([0, 1, 1, 2])))
+    else:
+        gen_repr_new(rng, out)
+
+
+def gen_lehmer(rng, out):
+    """gcd / gcd_ext of two multi-word values (gcd_large / gcd_ext_large: the Lehmer loops), incl. a common factor, equal
+    lengths, a much shorter second operand, Fibonacci-like pairs (quotients of one: the longest runs)"""
+    nw = rng.choice([3, 3, 4, 5, 8, 17, 40])
+    a = gen_mag(rng, nw)
+    k = rng.below(6)
+    if k == 0:
+        b = gen_mag(rng, nw)
+    elif k == 1:
+        b = gen_mag(rng, rng.choice([3, max(3, nw - 1), max(3, nw // 2)]))
+    elif k == 2:
+        g = gen_mag(rng, rng.choice([1, 2, 3]))
+        a, b = a * g, gen_mag(rng, max(3, nw - 1)) * g
+    elif k == 3:
+        x, y = 1, 1
+        while y.bit_length() < 64 * nw:
+            x, y = y, x + y
+        a, b = y, x
+    elif k == 4:
+        b = a + rng.choice([1, -1, 1 << 64])
+    else:
+        b = (a >> 64) + 1 if nw > 3 else a ^ 1
+    if rng.chance(1, 2):
+        a, b = b, a
+    fam = rng.choice("ui")
+    if fam == "i":
+        a, b = (-a if rng.chance(1, 2) else a), (-b if rng.chance(1, 2) else b)
+    out.append("%s.%s %s %s" % (fam, rng.choice(["gcd", "gcd_ext", "gcd_ext", "gcd_ext_rr"]), hx(a), hx(b)))
+
+
+def gen_timing(rng, out):
+    """thorough tier only: T.<op> runs <op> twice and reports the faster run; the oracle compares it with the cost bound of
+    Cross/CostClasses.v (sizes chosen so that the bound is far above the scheduling noise only for the larger ones)"""
+    k = rng.below(12)
+    big = lambda bits: rng.bits(bits) | (1 << (bits - 1))
+    if k == 0:
+        n = rng.choice([1 << 16, 1 << 20, 1 << 23])
+        out.append("T.u.%s %s %s" % (rng.choice(["add", "sub", "cmp"]), hx(big(n) + 1), hx(big(n - 1))))
+    elif k == 1:
+        n = rng.choice([1 << 14, 1 << 17, 1 << 20])
+        out.append("T.u.mul %s %s" % (hx(big(n)), hx(big(n // rng.choice([1, 2, 7])))))
+    elif k == 2:
+        n = rng.choice([1 << 14, 1 << 16, 1 << 18])
+        out.append("T.u.%s %s %s" % (rng.choice(["div", "rem", "divrem", "gcd", "gcd_ext"]), hx(big(n)), hx(big(n // rng.choice([2, 3])))))
+    elif k == 3:
+        out.append("T.u.%s %s" % (rng.choice(["fmt", "sqrt"]), hx(big(rng.choice([1 << 14, 1 << 17])))))
+    elif k == 4:
+        out.append("T.u.%s %s %x" % (rng.choice(["shl", "set_bit"]), hx(big(rng.choice([8, 200, 1 << 12]))), rng.choice([1 << 20, 1 << 24, (1 << 27) + 3])))
+    elif k == 5:
+        a = rng.choice([3, 10, big(64), big(200)])
+        out.append("T.u.pow %s %x" % (hx(a), (1 << 18) // a.bit_length()))
+    elif k == 6:
+        bt = rng.choice(list(BASES))
+        p = rng.choice([100, 1000, 5000])
+        x, y = fsig(rng, BASES[bt], p, True) | 1, fsig(rng, BASES[bt], p, True) | 1
+        out.append("T.f.%s %s %s %x %s %s %s %s" % (rng.choice(["op_add", "op_mul", "op_div"]), bt, rng.choice(MODES), p, hx(BASES[bt] ** (p - 1) + abs(x)), hx(rng.range(-50, 50)),
+                                                    hx(BASES[bt] ** (p - 1) + abs(y)), hx(rng.range(-50, 50))))
+    elif k == 7:
+        bt = rng.choice(list(BASES))
+        p = rng.choice([30, 100, 300, 800])
+        x = BASES[bt] ** (p - 1) + rng.bits(40)
+        out.append("T.f.%s %s %s %x %s %s" % (rng.choice(["v_exp", "v_ln", "v_ln_1p", "v_exp_m1"]), bt, rng.choice(["HalfEven", "Zero", "Up"]), p, hx(x), hx(-(p - 1) - rng.choice([0, 1, 3]))))
+    elif k == 8:
+        bt = rng.choice(["3", "a", "2", "10"])
+        out.append("T.f.%s %s Zero 5 %s %s" % (rng.choice(["repr_to_int", "try_ibig"]), bt, hx(rng.range(1, 200) * 2 + 1), hx(rng.choice([1000, 100000, 1000000]))))
+    elif k == 9:
+        n, d = rng.bits(64) | 1, (rng.bits(64) | 1) + (1 << 64)
+        out.append("T.q.%s %s %s %s" % (rng.choice(["next_up", "next_down"]), hx(n), hx(d), hx(rng.choice([100, 10000, 1000000]))))
+    elif k == 10:
+        out.append("T.p.ubig %s" % sx("".join(rng.choice("0123456789") for _ in range(rng.choice([1000, 30000, 200000])))))
+    else:
+        out.append("T.u.in_radix_fmt %s %x" % (hx(big(rng.choice([1 << 14, 1 << 16]))), rng.choice([3, 10, 36])))
+
+
 def gen_parse(rng, tier, out):
     if rng.chance(1, 3):
         return gen_parse_inject(rng, out)
@@ -930,22 +1146,31 @@ def gen_parse(rng, tier, out):
 
 def gen_cases(rng, tier, n):
     # the two systematic sweeps come first (their word values and character widths depend on the seed, the classes do not)
-    out = growth_sweep(rng.fork("growth")) + tiny_sweep(rng.fork("tiny")) + forms_sweep(rng.fork("forms")) + parse_sweep(rng.fork("parse"), tier)
+    out = (repr_new_sweep(rng.fork("reprnew")) + struct_sweep(rng.fork("struct")) + json_sweep(rng.fork("json")) +
+           growth_sweep(rng.fork("growth")) + tiny_sweep(rng.fork("tiny")) + forms_sweep(rng.fork("forms")) + parse_sweep(rng.fork("parse"), tier))
     if len(out) > n // 2:
         out = out[:n // 2]
     hangs = 0
+    ntime = 0
     while len(out) < n:
         k = rng.below(100)
         m = len(out)
-        if k < 7:
+        if tier == "thorough" and ntime < 400 and rng.chance(1, 40):
+            gen_timing(rng, out)
+            ntime += 1
+        elif k < 6:
             gen_forms(rng, tier, out)
-        elif k < 10:
+        elif k < 8:
             gen_growth(rng, out)
-        elif k < 13:
+        elif k < 10:
             gen_float_tiny(rng, out)
-        elif k < 38:
+        elif k < 12:
+            gen_lehmer(rng, out)
+        elif k < 16:
+            gen_deser(rng, out)
+        elif k < 39:
             gen_integer(rng, tier, out)
-        elif k < 44:
+        elif k < 45:
             gen_modular(rng, tier, out)
         elif k < 72:
             gen_float(rng, tier, out)
